@@ -212,7 +212,20 @@ def agentsList (t : Net) : List Aid := Grid.dedup (t.allNodes.flatMap t.content)
 def nbhd (t : Net) (v : Nat) (ic : Bool) (r : Nat) : List Nat :=
   netNbhd (adjOf t.edges) (fun v r => ball (adjOf t.edges) r v) v ic r
 
+/-- `get_neighborhood` as called: networkx raises (`NetworkXError` for radius 1, `NodeNotFound` otherwise) for a
+    node that is not in the graph -/
+def nbhdChecked (t : Net) (v : Nat) (ic : Bool) (r : Nat) : Except Err (List Nat) :=
+  if v < t.n then .ok (t.nbhd v ic r) else .error .noNode
+
 end Net
+
+/-- `_HexGrid.iter_neighbors` / `get_neighbors`: the neighbourhood goes through `iter_cell_list_contents`, which
+    indexes `_grid[x][y]` raw — for a centre outside the grid with `include_center` the centre itself is in the
+    list and is aliased (or raises IndexError) -/
+def hexNeighbors (g : Grid) (cells : List Coord) : Except Err (List Aid) :=
+  match g.rawCells cells with
+  | .error e => .error e
+  | .ok cs => .ok (cellsContents g cs)
 
 /-! ### NetworkGrid histories -/
 
